@@ -44,11 +44,14 @@ fuzz_target!(|data: &[u8]| {
                 if let Ok(t) = Timestamp::parse(f, s) {
                     // accepted text must survive format -> parse at the format's precision
                     let odt: time::OffsetDateTime = t.clone().into();
-                    if !(1..=9999).contains(&odt.to_offset(time::UtcOffset::UTC).year()) {
+                    // formatting must return whatever the instant is (a panic is the finding) ...
+                    let mut buf = Vec::new();
+                    let formatted = t.format(f, &mut buf);
+                    // ... and must succeed for instants whose UTC year has four digits
+                    if !odt.checked_to_offset(time::UtcOffset::UTC).is_some_and(|u| (1..=9999).contains(&u.year())) {
                         continue;
                     }
-                    let mut buf = Vec::new();
-                    if t.format(f, &mut buf).is_err() {
+                    if formatted.is_err() {
                         common::violation("C14", "timestamp-format-error:fuzz", &format!("{s:?}"));
                         continue;
                     }
